@@ -631,6 +631,39 @@ def run(loader, R, tier):
     R.floor("positive control (verif_positive::stack_lines_reversed) "
             "recognised", ncontrol11, 1)
 
+    # --------------------------------------------------------------- R44.13
+    # sibling agreement on a value-dependent class: Infty is one class for
+    # +oo, -oo and zoo; every printer's handler for it consults the
+    # direction (all siblings but one did)
+    R.rule("R44.13", "every printer's Infty handler distinguishes the "
+                     "direction of the infinity")
+    n13 = 0
+    for v in sorted(set(ALL_PRINTERS) | {"SymEngine::StrPrinter"}):
+        h = V.handlers(v).get("SymEngine::Infty")
+        f = prog.functions.get(h) if h else None
+        if f is None or not f.get("params") or strip_type(
+                f["params"][0]["t"]) != "SymEngine::Infty":
+            continue
+        n13 += 1
+        reads = {n.get("n") for n in walk(f["body"])
+                 if n.get("k") == "mcall" and n.get("n") in (
+                     "is_negative_infinity", "is_positive_infinity",
+                     "is_unsigned_infinity", "is_negative", "is_positive",
+                     "get_direction")}
+        key = "%s::bvisit(Infty)" % short(f.get("cls") or v)
+        R.instance("R44.13", key, sample={"handler": key,
+                                          "direction_tests": sorted(reads)})
+        throws_only = all(st.get("k") == "expr" and (st.get("e") or {}).get(
+            "k") == "throw" for st in f["body"].get("s", ())) \
+            and f["body"].get("s")
+        if not reads and not throws_only:
+            R.violation(
+                "R44.13", key, prog.loc(f),
+                "%s prints every infinity the same way (no test of the "
+                "direction): -oo and the complex infinity come out as +oo"
+                % key)
+    R.floor("Infty handlers of the printers", n13, 5)
+
     # --------------------------------------------------------------- R44.12
     # contradiction rule: a function that tests whether a sequence is empty
     # believes it can be; stepping or dereferencing its begin() where that
